@@ -46,6 +46,7 @@ type ExchangeOptions struct {
 	TimeFormat string // the single time format used in this document ("date-time", "date", "time", "" = none)
 	Validators bool
 	Defaults   bool
+	Docs       bool // descriptions and deprecated flags on operations, parameters and schemas
 }
 
 func primSchema(t *rapid.T, eo ExchangeOptions) *Schema {
@@ -87,7 +88,7 @@ var exNames = []string{"a", "b", "c", "id", "name", "value", "kind", "q", "limit
 // operations with parameters from every admitted style cell, JSON bodies and
 // several response shapes (codes, patterns, default, headers).
 func GenExchangeDoc(t *rapid.T, eo ExchangeOptions) Doc {
-	opt := Options{MaxDepth: 2, Validators: eo.Validators, Sums: true, AllOf: false, Refs: true, Nullable: true, Maps: true, Defaults: eo.Defaults}
+	opt := Options{MaxDepth: 2, Validators: eo.Validators, Sums: true, AllOf: false, Refs: true, Nullable: true, Maps: true, Defaults: eo.Defaults, Docs: eo.Docs}
 	comps := GenComponents(t, opt, rapid.IntRange(1, 4).Draw(t, "ncomp"))
 	doc := Doc{Components: comps}
 	names := comps.Names()
@@ -95,6 +96,9 @@ func GenExchangeDoc(t *rapid.T, eo ExchangeOptions) Doc {
 	nops := rapid.IntRange(3, 7).Draw(t, "nops")
 	for i := 0; i < nops; i++ {
 		op := Operation{ID: fmt.Sprintf("op%d", i), Method: rapid.SampledFrom([]string{"GET", "POST", "PUT", "DELETE", "PATCH"}).Draw(t, "method")}
+		if eo.Docs {
+			op.Description, op.Deprecated = DrawDocs(t)
+		}
 		path := fmt.Sprintf("/e%d", i)
 		np := rapid.IntRange(0, 4).Draw(t, "nparams")
 		used := map[string]bool{}
@@ -130,6 +134,9 @@ func GenExchangeDoc(t *rapid.T, eo ExchangeOptions) Doc {
 			}
 			if c.In == "header" {
 				p.Name = "X-" + nm
+			}
+			if eo.Docs {
+				p.Description, p.Deprecated = DrawDocs(t)
 			}
 			op.Params = append(op.Params, p)
 		}
